@@ -18,6 +18,22 @@ type propMeta struct {
 var libReal = []string{"lexer", "parser", "ast", "compiler (evalfilter.go, compiler.go)", "vm (incl. optimizer)", "environment (built-ins, scopes)", "object", "stack", "code"}
 
 var props = map[string]*propMeta{
+	"C11": {
+		level: "exploration", race: true, quickBudget: 150, thoroughBudget: 2400, stall: 30,
+		rule: "A simulated run = 1-2 shared evaluators + 2-4 tasks (caller goroutines) x 1-4 Run operations each; a quarter of the tasks instead run a whole evaluator life cycle (New, AddFunction, SetVariable, SetContext, Prepare, Run..., GetVariable) of their own. " +
+			"Exactly one task runs at a time; a seeded scheduler (policies: run-to-completion with forced preemptions, uniform, sticky, PCT-style priorities, sync-points-only) decides at every yield point: before every VM instruction (context poll), before Lock, after Unlock, at host-function entry, at operation boundaries. The evaluator's mutex is simulated (the scheduler arbitrates contention) over a real one. " +
+			"Oracles: Go race detector in the race build (hand-over between tasks is invisible to it, sync.Pool made deterministic), porcupine linearizability of invoke/return histories against per-script sequential specifications (counter with unique emitted values, decrementing register, accumulate-and-store, stateless predicates over fields/regexps/built-ins/user function), mutual-exclusion monitor on the simulated context, deadlock and step-cap detection. " +
+			"Non-trivial = at least one task switch happened; distinct = distinct digests of the full event log (every yield, switch, block, grant).",
+		exhaustivePart: "none (seeded schedule sampling)",
+		real:           append(append([]string{}, libReal...), "sync.Mutex semantics as seen by the race detector (an embedded real mutex is taken on every simulated acquisition)"),
+		stub:           []string{"goroutine scheduling (seeded scheduler, futex hand-over)", "mutex arbitration (simulated contention)", "context.Context (yield point per instruction)", "host function emit()", "sync.Pool.Put in race mode (always drops)", "stdout of the library (discarded)"},
+		assumptions: []string{
+			"the simulated mutex models sync.Mutex/RWMutex without fairness or re-entrancy",
+			"the race detector keeps a bounded access history per memory word and reports a given race once per process",
+			"library code that started its own goroutines would run outside the scheduler (the rewriter reports `go` statements; there are none)",
+			"linux/amd64 (raw futex, TSO)",
+		},
+	},
 	"C08": {
 		level: "fault_enumeration", quickBudget: 100, thoroughBudget: 1500, stall: 30,
 		rule: "Every call of Prepare/Run/Execute/Dump is wrapped (a panic reaching the wrapper is a violation) and runs in a worker process whose death or hang the coordinator observes and confirms in isolation. " +
